@@ -2,7 +2,7 @@
 #include <vf.h>
 #include <asn_internal.h>
 #include <xer_decoder.h>
-size_t vf_k;
+size_t vf_k, vf_len;
 void h_xer_whitespace_span(void) {
 	VF_SCALAR(size_t, n); VF_SCALAR(size_t, k);
 	__CPROVER_assume(n <= ((size_t)1 << 40));
@@ -11,5 +11,16 @@ void h_xer_whitespace_span(void) {
 	size_t r = xer_whitespace_span(buf, n);
 	VF_CANARY();
 	__CPROVER_assert(r <= n, "C04: the span does not exceed the chunk");
+}
+void h_xer_check_tag(void) {
+	VF_SCALAR(int, n); VF_SCALAR(size_t, len); VF_SCALAR(int, no_name);
+	__CPROVER_assume(n >= 0 && n <= (1 << 30) && len <= (1u << 30));
+	char *buf = (char *)malloc((size_t)n); __CPROVER_assume(buf != 0);
+	char *name = no_name ? 0 : (char *)malloc(len + 1);
+	if(!no_name) { __CPROVER_assume(name != 0); name[len] = 0; }
+	vf_len = len;
+	xer_check_tag_e r = xer_check_tag(buf, n, name);
+	VF_CANARY();
+	__CPROVER_assert(r >= XCT_BROKEN && r <= XCT_UNKNOWN_BO, "C04: a defined classification for every token");
 }
 VF_NATIVE_MAIN
